@@ -110,8 +110,13 @@ def scenario(cfg, src, symbolic: bool) -> List[str]:
     canon = resolve(amap, alias)
     bad: List[str] = []
     dtype = object if symbolic else float
-    labels = [src.lab(f'lab_{j}') for j in range(n)]
+    if cfg.get('span') == 'str':
+        # string labels, some spelt like alias names / variable names (a label is data, never a name to resolve)
+        labels = (['I', 'base', 'A', 'J', 'K'])[:n]
+    else:
+        labels = [src.lab(f'lab_{j}') for j in range(n)]
     twin = cfg.get('twin')
+    strict = bool(cfg.get('strict'))
     M = make_class(amap, alias if op == 'evaluate' else None)
     M2 = make_class({}, canon if op == 'evaluate' else None)
     cells = {v: [src.f(f'{v}_{j}') for j in range(n)] for v in VARS}
@@ -138,7 +143,7 @@ def scenario(cfg, src, symbolic: bool) -> List[str]:
             else:
                 return bad
         else:
-            m, m2 = M(list(labels), dtype=dtype), M2(list(labels), dtype=dtype)
+            m, m2 = M(list(labels), dtype=dtype, strict=strict), M2(list(labels), dtype=dtype, strict=strict)
             fill(m)
             fill(m2)
     except Watchdog:
@@ -149,7 +154,10 @@ def scenario(cfg, src, symbolic: bool) -> List[str]:
     canon2 = (VARS[(VARS.index(canon) + 1) % 3] if twin == 'wrong_var' else canon)
 
     pos = src.i('pos') if op in ('pos_write', 'pos_read') else None
-    la, lb = src.lab('la'), src.lab('lb')
+    if cfg.get('span') == 'str':
+        la, lb = cfg.get('la', 'I'), cfg.get('lb', 'A')
+    else:
+        la, lb = src.lab('la'), src.lab('lb')
     if op == 'attr_read':
         a, b = getattr(m, alias), getattr(m2, canon2)
         if a is not m.__dict__['_' + canon]:
@@ -279,6 +287,14 @@ def configs(tier: str):
             for op in ops:
                 for n in ((2 if op in ('slice_write', 'slice_read') else 3,) if tier == 'quick' else (1, 3, 4)):
                     out.append(cfg18(amap=amap, op=op, alias=alias, n=n))
+    # string labels that coincide with alias / variable names, and strict containers
+    for amap in ({'I': 'A'}, {'I': 'A', 'J': 'I'}, {'I': 'B', 'K': 'X'}):
+        for alias in sorted(amap):
+            for op in ('label_write', 'label_read', 'slice_write', 'slice_read'):
+                for la, lb in (('I', 'A'), ('base', 'J'), ('A', 'A'), ('J', 'I'), ('zz', 'A')):
+                    out.append(cfg18(amap=amap, op=op, alias=alias, n=4, span='str', la=la, lb=lb))
+            for op in ('attr_write', 'attr_write_seq', 'key_write', 'replace_values', 'pos_write', 'evaluate', 'attr_read'):
+                out.append(cfg18(amap=amap, op=op, alias=alias, n=3, strict=True))
     return out
 
 
